@@ -138,6 +138,38 @@ fn once(c: &Case) -> Verdict {
     }
 }
 
+/// Small fixed cases for the Miri leg (Miri owns the thread schedule and
+/// reports data races even when the result happens to be right).
+pub fn miri_cases() -> Vec<Case> {
+    let mut out = vec![];
+    let empty = MapDg { vertices: vec![0], arcs: vec![] };
+    for n in [3_usize, 5, 7] {
+        let ring: Vec<(usize, usize)> = (0..n).map(|i| (i, (i + 1) % n)).chain((2..n).map(|i| (i, 0))).collect();
+        let (_, complete) = closed_form("complete", n, 0);
+        let mut near = complete.clone();
+        near.retain(|&e| e != (n - 2, n - 1) && e != (n - 1, n - 2));
+        for op in 0..OPS.len() as u8 {
+            let a = match OPS[op as usize] {
+                "AdjacencyList::is_semicomplete" => Dg { order: n, arcs: if n == 5 { near.clone() } else { complete.clone() } },
+                _ => Dg { order: n, arcs: ring.clone() },
+            };
+            out.push(Case {
+                op,
+                a,
+                b: Dg { order: n - 1, arcs: vec![(0, 1), (1, 0)] },
+                ma: MapDg { vertices: vec![0, 2, 5, 9, 11][..n.min(5)].to_vec(), arcs: vec![(0, 2), (2, 5)] },
+                mb: MapDg { vertices: vec![0, 2, 3, 9, 14][..n.min(5)].to_vec(), arcs: vec![(2, 0), (3, 9), (0, 2)] },
+                seed: 7 + n as u64,
+                p: 0.5,
+                cpus: 0,
+                reps: 1,
+            });
+        }
+    }
+    let _ = empty;
+    out
+}
+
 impl Prop for C17 {
     type Case = Case;
     const ID: &'static str = "C17";
@@ -164,10 +196,37 @@ impl Prop for C17 {
                 workers: 16,
                 build: Build::Normal,
             },
+            Leg {
+                name: "huge",
+                kind: LegKind::Random {
+                    cases: tier.pick(5, 40),
+                },
+                workers: 16,
+                build: Build::Normal,
+            },
         ]
     }
 
-    fn strategy(_leg: &str, tier: Tier) -> BoxedStrategy<Case> {
+    fn strategy(leg: &str, tier: Tier) -> BoxedStrategy<Case> {
+        if leg == "huge" {
+            // hundreds to thousands of rows per operation (complete() capped at 700 rows)
+            return (0..OPS.len() as u8, gen::huge_dg(), gen::huge_dg(), 1..=16_usize, any::<u64>())
+                .prop_map(|(op, (a, _), (b, _), cpus, seed)| {
+                    let name = OPS[op as usize];
+                    let mut a = a;
+                    if name == "AdjacencyList::complete" || name.starts_with("AdjacencyMap::") {
+                        a.order = a.order.min(700);
+                        a.arcs.retain(|&(u, v)| u < a.order && v < a.order);
+                    }
+                    let to_map = |g: &Dg, stride: usize| MapDg {
+                        vertices: (0..g.order.min(900)).map(|v| v * stride).collect(),
+                        arcs: g.arcs.iter().filter(|&&(u, v)| u < 900 && v < 900).map(|&(u, v)| (u * stride, v * stride)).collect(),
+                    };
+                    let (ma, mb) = (to_map(&a, 2), to_map(&b, 3));
+                    Case { op, a, b, ma, mb, seed, p: 0.01, cpus, reps: 1 }
+                })
+                .boxed();
+        }
         let max: usize = tier.pick(60, 130);
         let reps = tier.pick(3, 10);
         (
